@@ -7,6 +7,7 @@ mod batch;
 mod cli;
 mod cli_cli;
 mod gen;
+mod giant;
 mod pma;
 mod rng;
 mod stream;
@@ -53,6 +54,7 @@ fn main() {
         "threads" => threads_cli::cli_threads(&args[2..]),
         "lockstep" => threads_cli::cli_lockstep(&args[2..]),
         "cli" => cli_cli::cli(&args[2..]),
+        "giant" => giant::cli(&args[2..]),
         "images" => threads_cli::cli_images(&args[2..]),
         "image-of" => threads_cli::cli_image_of(&args[2..]),
         "replay" => {
@@ -67,6 +69,7 @@ fn main() {
                 Some("threads") | Some("lockstep") => threads_cli::replay(&doc),
                 Some("cli") => cli_cli::replay(&doc, &args[3..]),
                 Some("perm") => threads_cli::replay_perm(&doc),
+                Some("giant") => giant::replay(&doc),
                 other => harness_error(&format!("replay: unknown engine {other:?}")),
             };
             if code == 1 {
